@@ -370,8 +370,12 @@ func c06CLI(c *Ctx, alpha []c06Sym, maxLen int, fl Flags) {
 	outs := []string{"stdout", "outfile"}
 	eols := []string{"\n", "\r\n"}
 	dir := freshDir(c.Scratch, "cli06")
+	preExisting := false // the next run finds a longer file at the output path (what an earlier run left there)
 	runOne := func(text string, in, out string) (string, string) {
 		os.RemoveAll(filepath.Join(dir, "out.log"))
+		if preExisting {
+			os.WriteFile(filepath.Join(dir, "out.log"), []byte(strings.Repeat("{\"stale\":\"line of an earlier run\"}\n", 2000)), 0o644)
+		}
 		args := []string{"redact"}
 		r := CLIRun{Bin: c.CLI, Dir: dir}
 		switch in {
@@ -464,7 +468,9 @@ func c06CLI(c *Ctx, alpha []c06Sym, maxLen int, fl Flags) {
 					for _, out := range outs {
 						for rep := 0; rep < 2; rep++ {
 							c.Eval(1)
+							preExisting = rep == 1
 							got, problem := runOne(text, in, out)
+							preExisting = false
 							chn := in + ">" + out
 							mk := func() map[string]any {
 								return map[string]any{"kind": "c06cli", "sequence": name, "eol": eol, "final_newline": final, "in": in, "out": out, "input": text, "expected": want, "got": got, "problem": problem}
